@@ -216,6 +216,11 @@ func (c *Clock) Expire() {
 
 // ---- transport ---------------------------------------------------------------
 
+// Runaway is the panic value the seams raise to get control back from a
+// library loop that keeps going after the context expired (it cannot be
+// interrupted any other way); the harness recovers it and reports it.
+type Runaway struct{ What string }
+
 // ErrTimeout is what Send returns when nothing arrives within the attempt.
 var ErrTimeout = errors.New("verif transport: i/o timeout (no datagram arrived within the per-attempt deadline)")
 
@@ -337,6 +342,9 @@ func (t *Transport) Send(ctx context.Context, b []byte) ([]byte, error) {
 		}
 		if t.Clock != nil {
 			t.Clock.SendsAfterExpiry++
+			if t.Clock.SendsAfterExpiry > 500 {
+				panic(Runaway{"more than 500 transmissions attempted after the context expired"})
+			}
 		}
 		return nil, ctx.Err()
 	}
@@ -415,6 +423,9 @@ func (t *Transport) Sleep(ctx context.Context, d time.Duration) bool {
 	t.Clock.Sleeps = append(t.Clock.Sleeps, d)
 	if t.Clock.Expired {
 		t.Clock.SleepsAfterExpiry++
+		if t.Clock.SleepsAfterExpiry > 500 {
+			panic(Runaway{"more than 500 back-off sleeps started after the context expired"})
+		}
 		return true
 	}
 	if t.SleepQuantum > 0 {
